@@ -4,11 +4,14 @@ import (
 	"bytes"
 	"context"
 	"fmt"
+	"sync"
+	"syscall"
 	"time"
 
 	"github.com/plgd-dev/go-coap/v3/message"
 	"github.com/plgd-dev/go-coap/v3/message/codes"
 	"github.com/plgd-dev/go-coap/v3/message/pool"
+	"github.com/plgd-dev/go-coap/v3/mux"
 	"github.com/plgd-dev/go-coap/v3/net/client"
 	"github.com/plgd-dev/go-coap/v3/options"
 	"github.com/plgd-dev/go-coap/v3/tcp"
@@ -81,6 +84,31 @@ func c09Run(e *Env) {
 	}
 	limit := []int64{0, 1}[t.Choose(2)]
 	nOps := 1 + t.Choose(4)
+	// the socket is dead on arrival: the very first write of the library (the CSM) fails
+	deadSocket := t.Chance(1, 6) && !IsDatagram(tr) && peer == pSilent
+	// the application's handler is stuck in application code, the receive queue is tiny and the peer keeps
+	// sending requests: the reader ends up blocked handing a message to the queue when the interruption comes
+	busy := t.Chance(1, 4) && !deadSocket && peer != pStallHandshake
+	qsize := t.Choose(2)
+	flood := 3 + t.Choose(3)
+	gate := make(chan struct{})
+	var gateOnce sync.Once
+	openGate := func() { gateOnce.Do(func() { close(gate) }) }
+	e.OnCleanup(openGate)
+	entered := 0
+	router := mux.NewRouter()
+	router.DefaultHandle(mux.HandlerFunc(func(rw mux.ResponseWriter, r *mux.Message) {
+		select {
+		case <-gate:
+			return // the run is being wound up: whatever the reader still hands over is not part of the story
+		default:
+		}
+		e.mu.Lock()
+		entered++
+		e.mu.Unlock()
+		e.Notef("handler entered and blocks in application code")
+		<-gate
+	}))
 	const tickEvery = 4 * time.Second
 	const D = tickEvery + time.Second
 
@@ -111,13 +139,26 @@ func c09Run(e *Env) {
 		cfg.TransmissionMaxRetransmit = 2
 		cfg.LimitClientParallelRequests = limit
 		cfg.BlockwiseEnable = t.Chance(1, 3)
+		if busy {
+			cfg.ReceivedMessageQueueSize = qsize
+			options.WithMux(router).UDPClientApply(&cfg)
+		}
 		w = NewCWorld(e, CWorldCfg{Transport: tr, UDP: cfg, Handshake: handshake})
 		if w != nil && w.PC != nil {
 			hsClosed = w.PC.ClosedCh()
 		}
 	} else {
-		w = NewCWorld(e, CWorldCfg{Transport: tr, Handshake: handshake, TCPOpts: []tcp.Option{
+		topts := []tcp.Option{
 			options.WithLimitClientParallelRequest(limit), options.WithLimitClientEndpointParallelRequest(0), options.WithCloseSocket(),
+		}
+		if busy {
+			topts = append(topts, options.WithMux(router), options.WithReceivedMessageQueueSize(qsize))
+		}
+		w = NewCWorld(e, CWorldCfg{Transport: tr, Handshake: handshake, TCPOpts: topts, PreStart: func(sc *SimConn) {
+			if deadSocket {
+				e.Fault("socket.deadOnArrival")
+				sc.WriteErr = syscall.ECONNRESET
+			}
 		}})
 		if w != nil {
 			hsClosed = w.SC.ClosedCh()
@@ -129,10 +170,8 @@ func c09Run(e *Env) {
 	if peer == pStallStream {
 		w.SC.LimitOut(8) // the peer stopped reading: the send buffer is full after the first frame
 	}
-	e.Wait()
-	e.Logf("cfg transport=%s peer=%s limit=%d ops=%d", tr, c09PeerNames[peer], limit, nOps)
-
-	// on-close callbacks
+	// on-close callbacks: registered before the connection's goroutines get to run at all (a connection whose
+	// first write fails shuts down at once, and callbacks registered after the shutdown are not promised to run)
 	onClose := make([]int, 1+t.Choose(3))
 	for i := range onClose {
 		i := i
@@ -142,6 +181,26 @@ func c09Run(e *Env) {
 			e.mu.Unlock()
 			e.Notef("on-close callback %d", i)
 		})
+	}
+	e.Wait()
+	e.Logf("cfg transport=%s peer=%s limit=%d ops=%d dead-socket=%v busy-handler=%v queue=%d", tr, c09PeerNames[peer], limit, nOps, deadSocket, busy, qsize)
+	if busy {
+		for i := 0; i < flood; i++ {
+			m := &WMsg{Type: TCON, Code: 1, MID: w.NextPeerMID(), Token: []byte{0xb5, byte(i)}, Opts: []WOpt{{Num: OptURIPath, Val: []byte("busy")}}}
+			it := w.Queue(m, fmt.Sprintf("flood-%d", i))
+			it.NoDrop = true
+		}
+	}
+	floodIn := 0
+	w.OnEmit = func(it *OutItem, dup bool) {
+		if len(it.Label) > 5 && it.Label[:5] == "flood" {
+			floodIn++
+		}
+	}
+	readerBlocked := func() bool {
+		e.mu.Lock()
+		defer e.mu.Unlock()
+		return busy && entered > 0 && floodIn > entered+qsize
 	}
 
 	var liveObs client.Observation
@@ -296,6 +355,10 @@ func c09Run(e *Env) {
 				e.Logf("application calls Close from %d goroutines", n)
 				e.Fault("conn.close")
 				noteBlocked("local-close")
+				if readerBlocked() {
+					e.NonTrivial()
+					e.Probe("close.whileReaderBlockedOnFullQueue")
+				}
 				closedAt = e.Now()
 				for i := 0; i < n; i++ {
 					go func() {
@@ -370,6 +433,10 @@ func c09Run(e *Env) {
 		closedAt = e.Now()
 		e.Logf("tail: application closes the connection")
 		interruptAll("local-close")
+		if readerBlocked() {
+			e.NonTrivial()
+			e.Probe("close.whileReaderBlockedOnFullQueue")
+		}
 		go func() {
 			_ = w.API.Close()
 			e.mu.Lock()
@@ -401,7 +468,9 @@ func c09Run(e *Env) {
 	}
 	// R4: every on-close callback exactly once
 	e.mu.Lock()
-	for i, n := range onClose {
+	ran := append([]int(nil), onClose...)
+	e.mu.Unlock()
+	for i, n := range ran {
 		if n != 1 {
 			sig := "on-close-callback-not-run"
 			if n > 1 {
@@ -410,7 +479,7 @@ func c09Run(e *Env) {
 			e.Violate("C09.R4", sig, "on-close callback %d ran %d times", i, n)
 		}
 	}
-	e.mu.Unlock()
+	openGate()
 	// release whatever is still blocked so that the run can be torn down (R6 is the drain check of the engine)
 	for _, o := range ops {
 		if !o.call.Done() {
